@@ -1123,3 +1123,88 @@ fn test_matrix_det() {
         I4096::from_str("-1258731415851007568569087128744").unwrap()
     );
 }
+
+// Verification hooks (add-only; compiled only with `--cfg yamaquasi_verif`).
+#[cfg(yamaquasi_verif)]
+pub mod verif_hooks {
+    use super::*;
+
+    pub fn crt(modp: &[u64], primes: &[u64]) -> I4096 {
+        super::crt(modp, primes)
+    }
+
+    /// State of an echelon builder: (p, r, indices, basis, factors), values as stored
+    /// (Montgomery form).
+    pub fn echelon_parts(b: &GFpEchelonBuilder) -> (u64, u64, Vec<usize>, Vec<Vec<u64>>, Vec<u64>) {
+        (
+            b.p,
+            b.r,
+            b.indices.clone(),
+            b.basis.clone(),
+            b.factors.clone(),
+        )
+    }
+
+    /// Builder with a given state (values in Montgomery form).
+    pub fn echelon_from_parts(
+        p: u64,
+        indices: Vec<usize>,
+        basis: Vec<Vec<u64>>,
+        factors: Vec<u64>,
+    ) -> GFpEchelonBuilder {
+        let mut b = GFpEchelonBuilder::new(p);
+        b.indices = indices;
+        b.basis = basis;
+        b.factors = factors;
+        b
+    }
+
+    /// Conversion out of Montgomery form with the builder's own constants.
+    pub fn echelon_redc(b: &GFpEchelonBuilder, x: u64) -> u64 {
+        mg_redc(b.p, b.pinv, x as u128)
+    }
+
+    /// `CRTDetBuilder::new(rows)` followed by one `det` call per (row, estimate) pair,
+    /// on the same builder (as compute_lattice_index does).
+    pub fn crt_det_builder(rows: Vec<&[i64]>, calls: &[(&[i64], f64)]) -> Vec<I4096> {
+        let mut b = CRTDetBuilder::new(rows);
+        calls.iter().map(|(r, est)| b.det(r, *est)).collect()
+    }
+
+    pub fn snf_divider(h: u128) -> (u128, i32) {
+        SmithNormalForm::divider(h)
+    }
+    pub fn snf_modh128(s: &SmithNormalForm, x: i128) -> i128 {
+        s.modh128(x)
+    }
+    pub fn snf_modh256(s: &SmithNormalForm, x: I256) -> i128 {
+        s.modh256(x)
+    }
+    pub fn snf_normalize(s: &mut SmithNormalForm, i: usize, k: usize) {
+        s.normalize(i, k)
+    }
+    pub fn snf_colsub(s: &mut SmithNormalForm, i: usize, j: usize, k: i128) {
+        s.colsub(i, j, k)
+    }
+    pub fn snf_colswap(s: &mut SmithNormalForm, i: usize, j: usize) {
+        s.colswap(i, j)
+    }
+    pub fn snf_submul_1(s: &mut SmithNormalForm, i: usize, j: usize, m: &[i128; 1]) {
+        s.submul_n(i, j, m)
+    }
+    pub fn snf_submul_8(s: &mut SmithNormalForm, i: usize, j: usize, m: &[i128; 8]) {
+        s.submul_n(i, j, m)
+    }
+    pub fn snf_eliminate(s: &mut SmithNormalForm, i: usize, j: usize, k: usize) {
+        s.eliminate(i, j, k)
+    }
+    pub fn snf_eliminate_block(s: &mut SmithNormalForm, j: usize, ii: Range<usize>, upper: bool) {
+        s.eliminate_block(j, ii, upper)
+    }
+    pub fn snf_reduce_rows(s: &mut SmithNormalForm) {
+        s.reduce_rows()
+    }
+    pub fn snf_reduce_cols(s: &mut SmithNormalForm) {
+        s.reduce_cols()
+    }
+}
